@@ -226,3 +226,19 @@ Theorem minimal_meta_tile_equals_tile_fetched_alone :
     0 <= j < tw (mg_grid m) -> 0 <= k < th (mg_grid m) ->
     model_pixel m q (HowMinimal tiles) (cx, cy, z) j k = model_pixel m q HowSingle (cx, cy, z) j k.
 Proof. exact minimal_equals_single_lemma. Qed.
+
+(* Upstream faults, single tile and meta tile strategies: a creation step one of whose upstream responses must not be
+   cached (substitute image of an error handler with cache: false) or ends in the middle of the image data hands
+   nothing to the cache - whatever is stored comes from a complete, cacheable response. *)
+Theorem faulted_response_is_not_stored :
+  forall g bad cut plan steps failed,
+    run_plan_faults g false bad cut plan = (steps, failed) ->
+    forall st, In st steps ->
+      existsb (fun rq => bbox_mem (fst rq) bad || bbox_mem (fst rq) cut) (fst st) = true -> snd st = [].
+Proof. exact faulted_step_stores_nothing. Qed.
+
+(* ... bulk strategy: a tile whose own response must not be cached is not among the tiles of the store call. *)
+Theorem bulk_uncacheable_tile_is_not_stored :
+  forall g bad st c,
+    In c (snd (step_with_faults g true bad st)) -> bbox_mem (fst (tile_request g c)) bad = false.
+Proof. exact bulk_uncacheable_not_stored. Qed.
